@@ -287,8 +287,16 @@ def _constructor_helper(F, body):
     """The arm delegates the 'is this the built-in generic NAME, and what are its arguments' test to a crate-local helper:
     `let Some([a, b]) = helper(&roto_type, "NAME") else { return Err(..) }`. Returns None or a dict with the literal, whether
     the helper compares against the GLOBAL scope and against its name parameter, and the let statement."""
+    cands = []
     for l in hir.nodes(body, "letstmt"):
-        init = hir.strip(l.get("init") or {})
+        cands.append((hir.strip(l.get("init") or {}), l["pat"], l.get("els"), l))
+    for m in hir.nodes(body, "match"):
+        some = [a for a in m["arms"] if "Some" in hir.pat_desc(a["pat"])]
+        rest = [a for a in m["arms"] if a not in some]
+        if len(some) == 1 and rest:
+            # the fallback: every other arm
+            cands.append((hir.strip(m["e"]), some[0]["pat"], {"k": "block", "stmts": [], "expr": rest[0]["body"], "_arms": rest}, {"pat": some[0]["pat"], "els": None, "line": m["line"], "_match": m}))
+    for init, pat_, els_, l in cands:
         if init.get("k") != "call":
             continue
         d = hir.call_def(init)
@@ -329,7 +337,11 @@ def _constructor_helper(F, body):
                 cmp_scope = True
         returns_arguments = any(n.get("k") == "field" and n.get("n") == "arguments" for n in hir.walk(hh)) or \
             any("arguments" in hir.pat_desc(p) for p in [x["pat"] for x in hir.nodes(hh, "letstmt")] + [a["pat"] for m in hir.nodes(hh, "match") for a in m["arms"]])
-        return {"let": l, "literal": lits[0], "helper": d, "global": glob and cmp_scope, "by_param": cmp_param, "arguments": returns_arguments}
+        fallback_err = None
+        if "_match" in l:
+            fallback_err = all("Err" in str(hir.result_desc(a["body"])) for a in els_["_arms"])
+        return {"let": l, "literal": lits[0], "helper": d, "global": glob and cmp_scope, "by_param": cmp_param, "arguments": returns_arguments,
+                "pattern": pat_, "match_fallback_err": fallback_err}
     return None
 
 
@@ -415,7 +427,7 @@ def rule_g4(F):
         if roto_binds is None and helper is not None and helper["arguments"]:
             # `let Some([a, b]) = helper(..) else { return Err }`
             l = helper["let"]
-            pat = l["pat"]
+            pat = helper["pattern"]
             inner = None
             if pat.get("k") == "pts" and len(pat.get("pats") or []) == 1:
                 inner = pat["pats"][0]
@@ -425,7 +437,10 @@ def rule_g4(F):
                 if inner.get("mid") is not None or inner.get("after"):
                     r.bad(CHECK_ROTO_TYPE, "arm %s|arity" % v, relfile(b.file), l["line"], "argument slice pattern has a rest element")
                 roto_binds = [x.get("local") for x in inner["before"]]
-                if not l.get("els") or not hir.diverges(l["els"]):
+                if helper.get("match_fallback_err") is not None:
+                    if not helper["match_fallback_err"]:
+                        r.bad(CHECK_ROTO_TYPE, "arm %s|arity" % v, relfile(b.file), l["line"], "wrong constructor / argument count does not yield an error")
+                elif not l.get("els") or not hir.diverges(l["els"]):
                     r.bad(CHECK_ROTO_TYPE, "arm %s|arity" % v, relfile(b.file), l["line"], "wrong argument count does not return an error")
         r.inst("arm %s|arity" % v)
         if roto_binds is None:
@@ -450,10 +465,21 @@ def rule_g4(F):
                 pairs.add(j1)
             propagated = any(contains_node(t, c) for t in tried)
             if not propagated:
-                # tail expression of the arm
-                tail = hir.strip(body)
-                te = tail.get("expr") if tail.get("k") == "block" else tail
-                propagated = te is c
+                # the call is (one of) the value(s) of the arm: tail of a block, body of an arm of a tail match, branch of a tail if
+                def value_positions(e, depth=0):
+                    e = hir.strip(e or {})
+                    out = [e]
+                    if depth > 6:
+                        return out
+                    if e.get("k") == "block" and e.get("expr") is not None:
+                        out += value_positions(e["expr"], depth + 1)
+                    if e.get("k") == "match":
+                        for a_ in e["arms"]:
+                            out += value_positions(a_["body"], depth + 1)
+                    if e.get("k") == "if":
+                        out += value_positions(e["then"], depth + 1) + value_positions(e.get("else"), depth + 1)
+                    return out
+                propagated = any(x is c for x in value_positions(body))
             if not propagated:
                 r.bad(CHECK_ROTO_TYPE, "arm %s|propagation" % v, relfile(b.file), c["line"], "result of the recursive check is neither `?`-propagated nor the arm's value")
         for j in range(arity):
